@@ -203,6 +203,46 @@ func c05Run(x *core.Ctx) {
 	}
 	e.run(x.Shard, x.NShards)
 
+	// counts: grammatical documents with MANY siblings of one construct (nothing is nested): a parser keeps no budget that
+	// siblings could use up
+	if x.Shard < 8 {
+		cr := x.Rand(uint64(x.Shard), 55)
+		for _, N := range []int{130, 210, 300, 520} {
+			N += cr.Intn(20)
+			var b strings.Builder
+			rep := func(pre string, item func(i int) string, post string) string {
+				b.Reset()
+				b.WriteString(pre)
+				for i := 0; i < N; i++ {
+					b.WriteString(item(i))
+				}
+				b.WriteString(post)
+				return b.String()
+			}
+			var text string
+			switch x.Shard {
+			case 0:
+				text = rep("{ ", func(i int) string { return fmt.Sprintf("a%d: f(x: {k: %d, l: {}}) ", i, i) }, "}")
+			case 1:
+				text = rep("{ ", func(i int) string { return fmt.Sprintf("a%d: f(x: [%d, []]) ", i, i) }, "}")
+			case 2:
+				text = rep("query Q(", func(i int) string { return fmt.Sprintf("$v%d: [Int!] = [%d] @d ", i, i) }, ") { f }")
+			case 3:
+				text = rep("{ ", func(i int) string { return fmt.Sprintf("...F%d ", i) }, "} ") + rep("", func(i int) string { return fmt.Sprintf("fragment F%d on T { a } ", i) }, "")
+			case 4:
+				text = rep("{ f ", func(i int) string { return fmt.Sprintf("@d%d(a: {}) ", i) }, "}")
+			case 5:
+				text = rep("", func(i int) string { return fmt.Sprintf("query Q%d { a } ", i) }, "")
+			case 6:
+				text = rep("{ f(x: {", func(i int) string { return fmt.Sprintf("k%d: {} ", i) }, "}) }")
+			default:
+				text = rep("{ f(x: [", func(i int) string { return "{} [] " }, "]) ... on T { ") + rep("", func(i int) string { return "... { a } " }, "} }")
+			}
+			c := core.NewCase("mutant", "src", text)
+			x.Do(c, func() { c05Check(x, c) })
+			x.Count("many_sibling_documents")
+		}
+	}
 	n := 3200
 	if !x.Quick() {
 		n = 125000
